@@ -3,7 +3,7 @@ C08 (decision invariance under re-encoding). Implementation side only."""
 import math
 from fractions import Fraction as Fr
 
-from . import impl, gen, oracle
+from . import impl, gen, oracle, guard
 
 
 # ------------------------------------------------------------------------------------- C17
@@ -24,6 +24,7 @@ def exact_contains(spec, x, y):
     return inside, amb
 
 
+@guard.violation_on_hang(lambda m: [m])
 def c17_point(spec, x, y):
     r = impl.make_region(spec)
     got = bool(r.containsPoint(x, y))
@@ -53,6 +54,7 @@ def boundary_points(spec):
     return pts
 
 
+@guard.violation_on_hang(lambda m: [m])
 def c17_contains_region(a, b):
     """soundness: A.containsRegion(B) -> every point of B is a point of A"""
     ra, rb = impl.make_region(a), impl.make_region(b)
@@ -75,6 +77,7 @@ def c17_contains_region(a, b):
 
 # ------------------------------------------------------------------------------------- C16
 
+@guard.violation_on_hang(lambda m: [m])
 def c16_arc(start, centre, sweep, cw):
     """planArc for an arc given by start, centre, sweep in (0, 2pi]."""
     h = impl.make_handlers({})
@@ -117,6 +120,7 @@ def decision_trace(cfg, events):
     return res, h
 
 
+@guard.violation_on_hang(lambda m: [m])
 def c08_reencode(r, regions, ops, variant, at_index):
     """Encode the abstract path `ops` plainly and with `variant` applied from position at_index on;
     compare per-op decisions and the final physical position."""
@@ -180,6 +184,7 @@ def c08_reencode(r, regions, ops, variant, at_index):
     return out
 
 
+@guard.violation_on_hang(lambda m: [m])
 def c08_translate(regions, ops, vec):
     """Translate path and regions by vec: decisions must not change."""
     def shift_spec(s):
